@@ -125,6 +125,16 @@ pub mod rt {
 }
 
 /// tokio-clock replacement for `futures_timer`.
+/// `std`, except that `std::time::Instant` is tokio's (pausable) clock: imported `as std` at the top of a module it
+/// puts that module's wall-clock reads on the simulator's clock without touching a line of it (hook H7).
+pub mod std_with_tokio_clock {
+	pub use ::std::*;
+	pub mod time {
+		pub use ::std::time::*;
+		pub use ::tokio::time::Instant;
+	}
+}
+
 pub mod timer {
 	use std::future::Future;
 	use std::pin::Pin;
